@@ -104,6 +104,7 @@ func mutateJSON(g *vgen.G, enc []byte) ([]byte, string) {
 	}
 	holder := []any{root}
 	var labels []string
+	nestText := ""
 	n := 1 + g.S.Intn(3)
 	for i := 0; i < n; i++ {
 		nodes := collectJSONNodes(holder)
@@ -190,20 +191,26 @@ func mutateJSON(g *vgen.G, enc []byte) ([]byte, string) {
 				}
 			}
 		case 10: // deep nesting
-			depth := []int{50, 500, 5000, 12000}[g.S.Intn(4)]
-			var v any = ref.get()
-			wrapType := g.S.Intn(3)
-			for k := 0; k < depth; k++ {
-				switch wrapType {
-				case 0:
-					v = map[string]any{"type": "Optional", "value": v}
-				case 1:
-					v = map[string]any{"type": "Array", "value": []any{v}}
-				default:
-					v = map[string]any{"kind": "Optional", "type": v}
-				}
+			depth := []int{20, 200}[g.S.Intn(2)]
+			if g.S.Intn(25) == 0 {
+				depth = []int{3000, 11000}[g.S.Intn(2)] // beyond encoding/json's own nesting limit of 10000
 			}
-			ref.set(v)
+			i = n // last operation: the tree is not walked again
+			// the wrapping is done textually around a placeholder (marshalling a
+			// 10000-deep tree with encoding/json is slow)
+			inner, err := json.Marshal(ref.get())
+			if err != nil {
+				break
+			}
+			open, close := `{"type":"Optional","value":`, `}`
+			switch g.S.Intn(3) {
+			case 1:
+				open, close = `{"type":"Array","value":[`, `]}`
+			case 2:
+				open, close = `{"kind":"Optional","type":`, `}`
+			}
+			nestText = strings.Repeat(open, depth) + string(inner) + strings.Repeat(close, depth)
+			ref.set(nestPlaceholder)
 			labels = append(labels, fmt.Sprintf("nest:%d", depth))
 		case 11: // replace a type by a bare type-ID string (old format / reference form)
 			if isMapParent {
@@ -223,11 +230,16 @@ func mutateJSON(g *vgen.G, enc []byte) ([]byte, string) {
 	if err != nil {
 		return enc, "unmarshalable"
 	}
+	if nestText != "" {
+		out = bytes.Replace(out, []byte(`"`+nestPlaceholder+`"`), []byte(nestText), 1)
+	}
 	if len(labels) == 0 {
 		labels = []string{"noop"}
 	}
 	return out, strings.Join(labels, ",")
 }
+
+const nestPlaceholder = "@@verif-nest-placeholder@@"
 
 func deepCopyJSON(v any) any {
 	switch x := v.(type) {
